@@ -105,10 +105,10 @@ class MetConfig:
     @property
     def n_timesteps(self) -> int:
         """Number of timesteps in the timeseries."""
-        if isinstance(self.ustar, list):
-            return len(self.ustar)
-        if isinstance(self.wind_speed, list):
-            return len(self.wind_speed)
+        for name in ("ustar", "mol", "wind_speed", "wind_dir"):
+            val = getattr(self, name)
+            if isinstance(val, list):
+                return len(val)
         return 1
 
     def get_step(self, i: int) -> dict:
@@ -149,9 +149,6 @@ class MetConfig:
             if isinstance(val, list):
                 list_fields[name] = len(val)
 
-        if not list_fields:
-            return  # all scalars, fine
-
         lengths = set(list_fields.values())
         if len(lengths) > 1:
             raise ValueError(
@@ -159,7 +156,8 @@ class MetConfig:
                 f"Got: {list_fields}"
             )
 
-        n = lengths.pop()
+        # all scalars: a single timestep
+        n = lengths.pop() if lengths else 1
         if self.timestamps is not None and len(self.timestamps) != n:
             raise ValueError(
                 f"timestamps length ({len(self.timestamps)}) does not match "
